@@ -91,6 +91,7 @@ def unitSingle (pr : Option Rows) (s : Single) : Single :=
     icPDE := s.icPDE.map unitMse,
     boundary := s.boundary.map unitMse,
     norm := s.norm.map fun q => (1, q.2.1, q.2.2.1, q.2.2.2),
+    normNS := s.normNS.map fun q => (1, q.2.1, q.2.2.1, q.2.2.2.1, q.2.2.2.2),
     obs := s.obs.map unitMse }
 
 /-- `tree_map(dyn_loss_for_one_key, dynamic_loss_dict, _loss_weights["dyn_loss"])` reduced with `+` -/
